@@ -1,5 +1,6 @@
 import Req.Driver.L.C18Codec
 import Req.Driver.L.C18Pipe
+import Req.Driver.L.C18Clone
 /-! Driver lanes of C18 (classification and binding; the pipeline lane is in `C18Pipe`). -/
 namespace Req.Driver.L.C18
 open Req.Proto Req.Result
@@ -23,25 +24,30 @@ def laneCt : List String → String
   | _ => "bad-op"
 
 /-- `c18bind <hasHttp> <status> <custom> <succTarget> <errTarget> <commonErr> <respErr> <cached>
-<readOK> <ct> <jsonOK> <xmlOK>` → `res=… err=… ret=… respErr=… cached=… codec=…` -/
-def laneBind : List String → String
-  | [hh, st, cu, sT, eT, cE, re, ca, rd, ct, jo, xo] =>
+<readOK> <ct> <jsonOK> <xmlOK> [<xf>]` → `res=… err=… ret=… respErr=… cached=… codec=…` -/
+def laneBind13 : List String → String
+  | [hh, st, cu, sT, eT, cE, re, ca, rd, ct, jo, xo, xf] =>
     match parseBool hh, decodeInt st, parseState cu, parseBool sT, parseBool eT, parseBool cE,
-          parseErr re, parseBool ca, parseBool rd, decodeHex ct, parseBool jo, parseBool xo with
-    | some hh, some st, some cu, some sT, some eT, some cE, some re, some ca, some rd, some ct, some jo, some xo =>
-      let h : Http := { status := st, ct := ct, custom := cu, readOK := rd, jsonOK := jo, xmlOK := xo }
+          parseErr re, parseBool ca, parseBool rd, decodeHex ct, parseBool jo, parseBool xo, parseXf xf with
+    | some hh, some st, some cu, some sT, some eT, some cE, some re, some ca, some rd, some ct, some jo, some xo, some xf =>
+      let h : Http := { status := st, ct := ct, custom := cu, readOK := rd, jsonOK := jo, xmlOK := xo, xf := xf }
       let o := parseBody { http := if hh then some h else none, successTarget := sT, errorTarget := eT,
                            commonErr := cE, respErr := re, bodyCached := ca, slots := {} }
       "res=" ++ showBool o.slots.result ++ " err=" ++ showSlotErr o.slots.error ++ " ret=" ++ showErr o.err ++
         " respErr=" ++ showErr o.respErr ++ " cached=" ++ showBool o.bodyCached ++ " codec=" ++ showCodec o.codec
-    | _, _, _, _, _, _, _, _, _, _, _, _ => "bad-op"
+    | _, _, _, _, _, _, _, _, _, _, _, _, _ => "bad-op"
   | _ => "bad-op"
+
+def laneBind (args : List String) : String :=
+  if args.length = 12 then laneBind13 (args ++ ["-"]) else laneBind13 args
 
 def lanes : List (String × (List String → String)) := [
   ("c18classify", laneClassify),
   ("c18ct", laneCt),
   ("c18bind", laneBind),
-  ("c18pipe", lanePipe)
+  ("c18pipe", lanePipe),
+  ("c18clone", laneClone),
+  ("c18consume", laneConsume)
 ]
 
 end Req.Driver.L.C18
